@@ -5,6 +5,7 @@ use crate::{
     types::compile_ty,
 };
 use core_lang::syntax::{names::Identifier, terms::Cns};
+use fun::syntax::types::OptTyped;
 
 impl Compile for fun::syntax::terms::Goto {
     /// This implementation of [Compile::compile_with_cont] proceeds as follows.
@@ -20,15 +21,19 @@ impl Compile for fun::syntax::terms::Goto {
         _: core_lang::syntax::terms::Term<Cns>,
         state: &mut CompileState,
     ) -> core_lang::syntax::Statement {
+        // the covariable has the type of the label, i.e., the type of the argument, and not the
+        // type of the `goto` itself
+        let ty = compile_ty(
+            &self
+                .term
+                .get_type()
+                .expect("Types should be annotated before translation"),
+        );
         self.term.compile_with_cont(
             core_lang::syntax::terms::XVar {
                 prdcns: Cns,
                 var: Identifier::new(self.target),
-                ty: compile_ty(
-                    &self
-                        .ty
-                        .expect("Types should be annotated before translation"),
-                ),
+                ty,
             }
             .into(),
             state,
